@@ -454,7 +454,10 @@ def witness_adjacency(ck, prog, cls, fn, has_self=True, cross_check=False):
         st_a.fields.pop(('self', 'adjacents'), None)
         outs0 = it0.run(fn, [], {}, st=st_a, self_obj=ObjRef('self', cls))
         table = None
-        if len(outs0) == 1 and outs0[0].kind in ('return', 'fall'):
+        # (only when the one-list-per-cell creation was not recognised: there the appends are read
+        # as effects on an opaque table, which does not depend on how far the interpreter can
+        # follow updates of a list held in a field)
+        if has_self is None and len(outs0) == 1 and outs0[0].kind in ('return', 'fall'):
             tv = outs0[0].state.fields.get(('self', 'adjacents'))
             if isinstance(tv, Tup) and len(tv.items) == bins * bins and all(
                     isinstance(l_, Tup) and all(isinstance(x_, Sym) and x_.is_const()
